@@ -17,7 +17,7 @@ m = {
     },
     "engines": [{
         "name": "flytsym", "path": "engine/",
-        "serves_properties": sorted(checks.keys()),
+        "serves_properties": sorted(k for k in checks.keys() if not k.startswith("_")),
         "kind_free_text": "symbolic executor for the go/ssa form of /repo (regenerated every run) -> SMT-LIB2 over z3 -in; forks on symbolic branches and scheduler choices (sleep sets), assertions are solver queries; counterexamples and witnesses are replayed natively with go test -overlay",
     }],
     "checks": [],
